@@ -555,3 +555,9 @@ CORPUS += [
     V("C18", "mtvrp-backhaul-second-draw", _MG, "            backhaul_demand * ~is_linehaul\n", "            backhaul_demand * ~(torch.rand(*batch_size, num_loc) > self.backhaul_ratio)\n", "C18.k"),
     V("C18", "eq-mtvrp-backhaul-indicator-mirrored", _MG, "        is_linehaul = torch.rand(*batch_size, num_loc) > self.backhaul_ratio", "        is_linehaul = self.backhaul_ratio < torch.rand(*batch_size, num_loc)", None),
 ]
+CORPUS += [
+    V("C16", "pomo-augmentation-axis-dropped-outside-training-only", _PM, '        if phase == "train":\n            n_aug = 0\n', '        if phase != "train":\n            n_aug = 0\n', "C16.h"),
+    V("C16", "eq-pomo-train-guard-mirrored", _PM, '        if phase == "train":\n            n_aug = 0\n', '        if "train" == phase:\n            n_aug = 0\n', None),
+    V("C16", "eq-pomo-train-guard-negated-else", _PM, '        if phase == "train":\n            n_aug = 0\n        elif n_aug > 1:\n            td = self.augment(td)\n',
+      '        if phase != "train":\n            if n_aug > 1:\n                td = self.augment(td)\n        else:\n            n_aug = 0\n', None),
+]
